@@ -9,10 +9,10 @@
    Status: interleave_disjoint (generic commutation) FULL; docs_disjoint_jobs FULL (also covers initialising
    DIFFERENT jobs); doc_read_after_write FULL; init_race_direct_write REFUTED (the property rests on the
    backend's default; known finding 1 is its replay on the real code with thread support switched off);
-   init_race_safe for the SAME job — see below (C12_init_race_safe_same_job).
+   init_race_safe FULL (n actors, same or different jobs, temp-file protocol).
    What the model cannot exhibit: preemption inside a system call, NFS semantics, page-cache visibility
    between hosts; os.replace is assumed atomic. *)
-From SV Require Import Base Json MD5 Canon FS Proc Crash CorrC11 CorrC12 C12Proofs.
+From SV Require Import Base Json MD5 Canon FS Proc Crash CorrC11 CorrC12 C12Proofs C12Race.
 
 Theorem C12_sequential_is_empty_schedule : forall A f (ps : list (prog A)), interleave [] f ps = sequential f ps.
 Proof. exact interleave_nil. Qed.
@@ -61,3 +61,46 @@ Theorem C12_init_race_direct_write_refuted :
   /\ snd (interleave wit_sched wit_f0 (wit_progs true)) = [inl [OUnit; OUnit]; inl [OUnit; OUnit]].
 Proof. exact init_race_direct_write_witness. Qed.
 Print Assumptions C12_init_race_direct_write_refuted.
+
+(* n processes run Project(); open_job(sp).init() on the same or on different jobs with the temp-file
+   protocol, from a workspace in which every requested job is absent or valid and has no stale temp file
+   ([pre_ok]); same-id actors pass the same state point value.  Under EVERY schedule: every actor ends Ok
+   (a torn state point would fail the validating load), the final tree is that of the sequential
+   composition, every requested job is a directory whose state point file validates, no temp file is
+   left and nothing else has changed. *)
+Theorem C12_init_race_safe : forall (frepr : fl -> str) (w1 w2 : str) (wr : path) (f0 : fs) (specs : list rspec),
+  get f0 (w1 :: w2 :: wr) = Some Dir ->
+  NoDup (map r_tag specs) ->
+  (forall s t, In s specs -> In t specs -> jid frepr s = jid frepr t -> r_sp s = r_sp t) ->
+  (forall s, In s specs -> pre_ok frepr w1 w2 wr f0 s) ->
+  forall sched : list nat,
+  let '(f1, os) := interleave sched f0 (map (rprog frepr w1 w2 wr) specs) in
+  os = map (fun _ => inl [OUnit; OUnit]) specs /\
+  fs_eq f1 (fst (sequential f0 (map (rprog frepr w1 w2 wr) specs))) /\
+  (forall s, In s specs ->
+     validf frepr w1 w2 wr f1 s /\ get f1 (dirp frepr w1 w2 wr s) = Some Dir /\ get f1 (tmpp frepr w1 w2 wr s) = None) /\
+  (forall q, ~ owned frepr w1 w2 wr specs q -> get f1 q = get f0 q).
+Proof. exact init_race_safe_lemma. Qed.
+Print Assumptions C12_init_race_safe.
+
+(* licence for the correspondence step *)
+Theorem C12_model_holds : forall c,
+  mismatch_C12 c = false ->
+  exists f ps,
+    irun (map fst (q_sched c)) (q_pre c, progs_of c) = (f, ps) /\
+    all2 result_match (map result_of ps) (q_results c) = true /\
+    fobs_match (frepr12 c) [q_ws c] f (q_final c) = true.
+Proof. exact model_holds_sched. Qed.
+Print Assumptions C12_model_holds.
+
+(* non-vacuity: the empty project of the refutation witness satisfies the hypotheses of C12_init_race_safe
+   for two actors initialising the same job (and the program used there is the race program) *)
+Example C12_example :
+  let specs := [{| r_tag := [97%N]; r_sp := wit_sp |}; {| r_tag := [98%N]; r_sp := wit_sp |}] in
+  get wit_f0 wit_ws = Some Dir /\ NoDup (map r_tag specs) /\
+  (forall s, In s specs -> pre_ok wit_repr wit_p WS [] wit_f0 s) /\
+  map (rprog wit_repr wit_p WS []) specs = wit_progs true.
+Proof.
+  simpl. split; [reflexivity|]. split; [repeat constructor; simpl; intuition discriminate|]. split; [|reflexivity].
+  intros s [<-|[<-|[]]]; apply pre_ok_fresh; intro r; destruct r as [|x [|y r]]; reflexivity.
+Qed.
